@@ -163,8 +163,8 @@ PROPS["C04"]["tables"] = ["unit-multipliers"]      # a compiled value that diffe
 # theorem modules about Lean text GENERATED from C functions: obligations whenever the translator accepts the current source
 PROPS["C10"]["generated"] = [{"module": "ScpiVerif.Props.C10Gen", "section": "fifo_c"}]
 PROPS["C06"]["generated"] = [{"module": "ScpiVerif.Props.C06Gen", "section": "result_c"}]
-PROPS["C01"]["generated"] = [{"module": "ScpiVerif.Props.C01Gen", "section": "input_c"}]
-PROPS["C08"]["generated"] = [{"module": "ScpiVerif.Props.C01Gen", "section": "input_c"}]
+PROPS["C01"]["generated"] = [{"module": "ScpiVerif.Props.C01InputGen", "section": "input_c"}]
+PROPS["C08"]["generated"] = [{"module": "ScpiVerif.Props.C01InputGen", "section": "input_c"}]
 
 NOT_CLAIMED = {}
 
